@@ -111,7 +111,7 @@ def run_main(argv):
         w.detach()
     finally:
         sys.stdout, sys.stderr = so, se
-    if status != 0 and (status.startswith('exc:') or '-B' in argv or '--backup' in argv):
+    if status != 0 and ('-B' in argv or '--backup' in argv):
         # a real repozo process is gone after an uncaught exception; in-process, the frames of the dead
         # run may keep an unclosed (gzip) file on tmp.tmp alive, and its finalizer would write into that
         # inode later -- when it has become the NEXT backup's file.  Finalize such leftovers now.
